@@ -21,6 +21,7 @@ fallback = {  # changes whose violation is only observable through another prope
  "C11-w7m1": ["C08"],                       # forwarded frames re-encoded by the node's version (the tag message has no trailing zeros; C08 relay-valid)
  "C02-w9m2": ["C15"], "C06-w9m2": ["C15"], "C09-w9m1": ["C15"],  # wave 9: package-level scratch buffers again (checksum header, signature input, writer's marshal buffer)
  "C11-w9m1": ["C08"],                       # forwarded frames re-encoded by the node's version again
+ "C01-w10m2": ["C08", "C05"],              # v1 frames of dialect messages ending in zero bytes: checksum recomputed over a v2-truncated payload (the reader side of C08)
  "C09-w8m1": ["C15"],                       # one package-level checksum hasher again: a data race
 }
 MATCH = os.environ.get("VERIF_SWEEP_MATCH", "")   # substring filter, e.g. -w9 for one wave
